@@ -564,3 +564,91 @@ Proof.
   intros i j Hi Hj. destruct i as [|[|i]]; destruct j as [|[|j]]; try lia;
     unfold exH, exV, delta; cbn [rsum_n Nat.eqb]; field.
 Qed.
+
+(* ---------- cal_hesse_correct: the finite-difference stencils ---------- *)
+Definition cubic (c0 c1 c2 c3 : R) (t : R) : R := c0 + c1 * t + c2 * t ^ 2 + c3 * t ^ 3.
+Definition quartic (c0 c1 c2 c3 c4 : R) (t : R) : R := c0 + c1 * t + c2 * t ^ 2 + c3 * t ^ 3 + c4 * t ^ 4.
+
+(* exact on cubics *)
+Lemma hc1_cubic c0 c1 c2 c3 x e : e <> 0 -> hc1 (cubic c0 c1 c2 c3) x e = 2 * c2 + 6 * c3 * x.
+Proof. intros He. unfold hc1, cubic. field. exact He. Qed.
+
+(* ... and that number is THE second derivative *)
+Lemma hc1_cubic_second_derivative c0 c1 c2 c3 x e : e <> 0 ->
+  (forall t : R, is_derive (cubic c0 c1 c2 c3) t (c1 + 2 * c2 * t + 3 * c3 * t ^ 2)) /\
+  is_derive (fun t : R => c1 + 2 * c2 * t + 3 * c3 * t ^ 2) x (hc1 (cubic c0 c1 c2 c3) x e).
+Proof.
+  intros He. rewrite hc1_cubic by exact He. split.
+  - intros t. unfold cubic. auto_derive; [exact I|]. ring.
+  - auto_derive; [exact I|]. ring.
+Qed.
+
+(* truncation error on a quartic: 10 c4 e^2 = (5/12) e^2 f'''' *)
+Lemma hc1_quartic c0 c1 c2 c3 c4 x e : e <> 0 ->
+  hc1 (quartic c0 c1 c2 c3 c4) x e = (2 * c2 + 6 * c3 * x + 12 * c4 * x ^ 2) + 10 * c4 * e ^ 2.
+Proof. intros He. unfold hc1, quartic. field. exact He. Qed.
+
+(* the stencil before the repair: f'' + 2 f'/(3e) + e f'''/9 *)
+Lemma hc1_old_cubic c0 c1 c2 c3 x e : e <> 0 ->
+  hc1_old (cubic c0 c1 c2 c3) x e =
+  (2 * c2 + 6 * c3 * x) + 2 * (c1 + 2 * c2 * x + 3 * c3 * x ^ 2) / (3 * e) + e * (6 * c3) / 9.
+Proof. intros He. unfold hc1_old, cubic. field. exact He. Qed.
+
+Lemma hc1_old_refuted : exists c0 c1 c2 c3 x e, e <> 0 /\ hc1_old (cubic c0 c1 c2 c3) x e <> 2 * c2 + 6 * c3 * x.
+Proof.
+  exists 0, 1, 0, 0, 0, 1. split; [lra|]. rewrite hc1_old_cubic by lra. lra.
+Qed.
+
+(* mixed derivative: exact on polynomials of total degree <= 3 *)
+Definition cubic2 (a0 a1 a2 a3 a4 a5 a6 a7 a8 a9 : R) (s t : R) : R :=
+  a0 + a1 * s + a2 * t + a3 * s * t + a4 * s ^ 2 + a5 * t ^ 2 + a6 * s ^ 2 * t + a7 * s * t ^ 2 + a8 * s ^ 3 + a9 * t ^ 3.
+Lemma hc2_cubic2 a0 a1 a2 a3 a4 a5 a6 a7 a8 a9 x y e : e <> 0 ->
+  hc2 (cubic2 a0 a1 a2 a3 a4 a5 a6 a7 a8 a9) x y e = a3 + 2 * a6 * x + 2 * a7 * y.
+Proof. intros He. unfold hc2, cubic2. field. exact He. Qed.
+
+Lemma hc2_cubic2_mixed_derivative a0 a1 a2 a3 a4 a5 a6 a7 a8 a9 x y e : e <> 0 ->
+  (forall s t : R, is_derive (fun u : R => cubic2 a0 a1 a2 a3 a4 a5 a6 a7 a8 a9 u t) s
+                     (a1 + a3 * t + 2 * a4 * s + 2 * a6 * s * t + a7 * t ^ 2 + 3 * a8 * s ^ 2)) /\
+  is_derive (fun t : R => a1 + a3 * t + 2 * a4 * x + 2 * a6 * x * t + a7 * t ^ 2 + 3 * a8 * x ^ 2) y
+            (hc2 (cubic2 a0 a1 a2 a3 a4 a5 a6 a7 a8 a9) x y e).
+Proof.
+  intros He. rewrite hc2_cubic2 by exact He. split.
+  - intros s t. unfold cubic2. auto_derive; [exact I|]. ring.
+  - auto_derive; [exact I|]. ring.
+Qed.
+
+(* the list forms used by the correspondence cases are the one- and two-variable stencils along the coordinates *)
+Lemma hc_diag_unfold f xs e i : hc_diag f xs e i = hc1 (fun t => f (upd xs i t)) (nth i xs 0) e.
+Proof. reflexivity. Qed.
+Lemma hc_off_unfold f xs e i j :
+  hc_off f xs e i j = hc2 (fun s t => f (upd (upd xs i s) j t)) (nth i xs 0) (nth j xs 0) e.
+Proof. reflexivity. Qed.
+
+(* ---------- get_error_matrix ---------- *)
+Lemma jvjt_diag J V k : jvjt_kl J V k k = quad_form V (nth k J []).
+Proof. reflexivity. Qed.
+
+Lemma err_prop_vec_nth J V k : (k < length J)%nat -> nth k (err_prop_vec J V) 0 = sqrt (jvjt_kl J V k k).
+Proof.
+  intros Hk. unfold err_prop_vec. rewrite (nth_indep _ 0 (err_prop V [])) by (rewrite map_length; exact Hk).
+  rewrite map_nth. reflexivity.
+Qed.
+
+(* ---------- VarsManager.minimize / minimize_error before the repair ---------- *)
+(* minimize evaluated y'(.) at the physical value y(x) instead of the fit variable x *)
+Lemma minimize_old_dydx_at_y_refuted : bt_two_d 0 1 (bt_two 0 1 1) <> bt_two_d 0 1 1.
+Proof.
+  unfold bt_two_d, bt_two. intros H.
+  assert (H1 : (1 - 0) * cos ((1 - 0) * (sin 1 + 1) / 2 + 0) / 2 > 3 / 10) by interval.
+  assert (H2 : (1 - 0) * cos 1 / 2 < 28 / 100) by interval.
+  lra.
+Qed.
+(* minimize_error scaled an inverse Hessian that already is in physical coordinates once more by y' *)
+Lemma minimize_error_old_refuted :
+  exists d V, nth 0 (hesse_error (trans_error_matrix d V)) 0 <> nth 0 (hesse_error V) 0.
+Proof.
+  exists [1 / 2], [[1]]. unfold hesse_error, trans_error_matrix, scale_row, mget; cbn [length seq map combine nth fst snd].
+  replace (1 / 2 * 1 * (1 / 2)) with (/ 4) by field.
+  rewrite (Rabs_pos_eq (/ 4)) by lra. rewrite Rabs_R1, sqrt_1.
+  intros H. assert (Hs : sqrt (/ 4) * sqrt (/ 4) = / 4) by (apply sqrt_sqrt; lra). rewrite H in Hs. lra.
+Qed.
